@@ -71,5 +71,9 @@ def scratch_dir():
 
 def scratch_root():
     d = '/dev/shm/mido-mc-scratch' if os.path.isdir('/dev/shm') else '/tmp/mido-mc-scratch'
+    tag = os.environ.get('VERIF_SCRATCH_TAG')
+    if tag:
+        # parallel runs of the same check against different scratch copies
+        d = os.path.join(d, 'tag-' + tag)
     os.makedirs(d, exist_ok=True)
     return d
